@@ -562,6 +562,33 @@ fn emit_merge(w: &mut World, out: &mut impl Write, id: &str, li: usize, names_mo
     watch_end();
 }
 
+/// One call of the injection-range computation as data for the Lean port of `intersect_ranges`:
+/// `ir <incl> <parent ranges> <nodes: s-e:child:child;…> <ranges the harness used>`.
+fn ir_line(src: &[u8], parents: &[(usize, usize)], nodes: &[Node], incl: bool, result: &[(usize, usize)]) -> String {
+    let _ = src;
+    let rg = |v: &[(usize, usize)]| if v.is_empty() { "-".to_string() } else { v.iter().map(|(s, e)| format!("{s}-{e}")).collect::<Vec<_>>().join(",") };
+    let ns: Vec<String> = nodes
+        .iter()
+        .map(|n| {
+            let mut parts = vec![format!("{}-{}", n.start_byte(), n.end_byte())];
+            let mut c = n.walk();
+            for ch in n.children(&mut c) {
+                parts.push(format!("{}-{}", ch.start_byte(), ch.end_byte()));
+            }
+            parts.join(":")
+        })
+        .collect();
+    // with hooks/C17-reexport.diff in /repo (and `--cfg tsv_c17_hook`): also the REAL private function's answer
+    #[cfg(tsv_c17_hook)]
+    {
+        let pr: Vec<Range> = parents.iter().map(|&(s, e)| to_range(src, s, e)).collect();
+        let real: Vec<(usize, usize)> = tree_sitter_highlight::verif::intersect_ranges(&pr, nodes, incl).iter().map(|r| (r.start_byte, r.end_byte)).collect();
+        return format!("ir {} {} {} {} {}", incl as u8, rg(parents), ns.join(";"), rg(result), rg(&real));
+    }
+    #[allow(unreachable_code)]
+    format!("ir {} {} {} {}", incl as u8, rg(parents), ns.join(";"), rg(result))
+}
+
 struct LayerOut {
     depth: usize,
     caps: Vec<String>,
@@ -573,7 +600,7 @@ struct LayerOut {
 /// Each layer's caps are its RAW captures in cursor order: `s-e-node-<h|n>` for a highlight pattern,
 /// `s-e-node-I<id+id..>` for the first capture of an injection match (the match is removed).
 #[allow(clippy::too_many_arguments)]
-fn build_layers(langs: &[LangDef], cfgs: &[HighlightConfiguration], variant: usize, names: &[String], li0: usize, depth0: usize, ranges0: Vec<(usize, usize)>, src: &[u8], out: &mut Vec<LayerOut>, overflow: &mut bool) -> Vec<usize> {
+fn build_layers(langs: &[LangDef], cfgs: &[HighlightConfiguration], variant: usize, names: &[String], li0: usize, depth0: usize, ranges0: Vec<(usize, usize)>, src: &[u8], out: &mut Vec<LayerOut>, overflow: &mut bool, irs: &mut Vec<String>) -> Vec<usize> {
     let mut result = Vec::new();
     let mut queue: Vec<(usize, usize, Vec<(usize, usize)>)> = Vec::new();
     let (mut li, mut depth, mut ranges) = (li0, depth0, ranges0);
@@ -633,6 +660,7 @@ fn build_layers(langs: &[LangDef], cfgs: &[HighlightConfiguration], variant: usi
                     if let (Some(name), false) = (name, nodes.is_empty()) {
                         if let Some(ci) = lang_index(&name) {
                             let r = content_ranges(&ranges, &nodes, incl);
+                            irs.push(ir_line(src, &ranges, &nodes, incl, &r));
                             if !r.is_empty() {
                                 queue.push((ci, depth + 1, r));
                             }
@@ -676,8 +704,9 @@ fn build_layers(langs: &[LangDef], cfgs: &[HighlightConfiguration], variant: usi
                     if let (Some(name), Some(node)) = (lang_name, content) {
                         if let Some(ci2) = lang_index(&name) {
                             let r = content_ranges(&ranges, &[node], incl);
+                            irs.push(ir_line(src, &ranges, &[node], incl, &r));
                             if !r.is_empty() {
-                                ids = build_layers(langs, cfgs, variant, names, ci2, depth + 1, r, src, out, overflow);
+                                ids = build_layers(langs, cfgs, variant, names, ci2, depth + 1, r, src, out, overflow, irs);
                             }
                         }
                     }
@@ -738,7 +767,8 @@ fn emit_multi(w: &mut World, out: &mut impl Write, id: &str, root: usize, varian
     }
     let mut layers = Vec::new();
     let mut overflow = false;
-    let top = build_layers(&w.langs, &cfgs, variant, &names, root, 0, vec![(0, usize::MAX)], src, &mut layers, &mut overflow);
+    let mut irs = Vec::new();
+    let top = build_layers(&w.langs, &cfgs, variant, &names, root, 0, vec![(0, usize::MAX)], src, &mut layers, &mut overflow, &mut irs);
     watch_end();
     if overflow {
         return false;
@@ -750,6 +780,9 @@ fn emit_multi(w: &mut World, out: &mut impl Write, id: &str, root: usize, varian
     }
     for (i, l) in layers.iter().enumerate() {
         writeln!(out, "layer {i} {} {}", l.depth, if l.caps.is_empty() { "-".into() } else { l.caps.join(",") }).unwrap();
+    }
+    for l in &irs {
+        writeln!(out, "{l}").unwrap();
     }
     let t: Vec<String> = top.iter().map(|x| x.to_string()).collect();
     writeln!(out, "top {}\nrun mmerge", if t.is_empty() { "-".into() } else { t.join(",") }).unwrap();
